@@ -1077,6 +1077,7 @@ func Spec() *explore.Spec {
 			}, Doc: "the same ladder for declared recursive struct / list-of-struct fields, which the decoder follows recursively, cut off and complete (complete and nested <= 1000: decodes to a value nested as deep; rungs above 100,000 in the thorough tier only)"},
 			{Name: "container-mismatch", ShardDepth: 3, Body: containerMismatch, Doc: "a list / map (key or value) / set / list of lists whose item types differ from the declared ones (3 item kinds, 1..1025 items) between two good fields x 3 protocols: non-strict decoding consumes it and leaves the other fields intact, strict decoding reports TypeMismatch"},
 			{Name: "mismatch-alloc", ShardDepth: 2, Body: mismatchAlloc, Doc: "10..60000 map headers with mismatching key/value types, each announcing 1024 entries, inside a list: error, allocation within the bound"},
+			{Name: "embedded-targets", ShardDepth: 2, Body: embeddedTargets, Doc: "5 targets with embedded structs (pointer to an unexported / exported struct, unexported struct by value, unions whose members sit in an embedded pointer) x 4 field selections x 3 protocols: no panic; the value (or, where the embedded pointer cannot be set, an error); a decoded member is not lost"},
 			{Name: "union", ShardDepth: 2, Body: unionFamily, Doc: "a struct with a `thrift:\",union\"` field: each member (or none) x an unknown field of every thrift type, or a declared field with another wire type (non-strict), placed before / after / around the member: the member and the union interface keep their values"},
 			{Name: "hostile-sizes", ShardDepth: 2, Body: hostileSizes, Doc: "list/set/map/binary/string sizes replaced by {-1, MinInt32, MaxInt32, 2^20, 2^16, 3, 2^40, 2^28} with 0/2/64/70000 payload bytes present: error, no panic, allocation within 1 MiB + 1024 x len(input)"},
 		},
